@@ -90,33 +90,33 @@ theorem ci_sendSegment (e : Ep) (it : TxItem) (s : Nat) (hp : e.cfg.privExt = fa
     refine ⟨?_, by simp [hi.norej]⟩
     intro x hx
     have hx' : x ∈ Pending e ∨ x = (it.tid, true) := by
-      rw [pending_emit_seg e _ (it.tid, true) (by simp [sendMessage, kaReset, idleReset])
-        (by simp [sendMessage, kaReset, idleReset, hasEnd_end]) hn] at hx
+      rw [pending_emit_seg e _ (it.tid, true) (by simp [sendMessage, sendReady, kaReset, idleReset])
+        (by simp [sendMessage, sendReady, kaReset, idleReset, hasEnd_end]) hn] at hx
       simpa using hx
     rcases hx' with hx' | hx'
     · obtain ⟨g1, g2⟩ := hi.ts x hx'
       refine ⟨fun h => ?_, fun h => Or.inl ?_⟩
-      · simp only [pq_txPendAck, sendMessage, kaReset, idleReset]
+      · simp only [pq_txPendAck, sendMessage, sendReady, kaReset, idleReset]
         exact List.mem_append_left _ (g1 h)
-      · simp only [pq_txPendAck, sendMessage, kaReset, idleReset]
+      · simp only [pq_txPendAck, sendMessage, sendReady, kaReset, idleReset]
         rcases g2 h with g | g
         · exact List.mem_append_left _ g
         · rw [ht] at g; simp only [List.mem_singleton] at g; rw [g]; simp
     · subst hx'
       refine ⟨fun _ => ?_, fun h => (by cases h)⟩
-      simp [sendMessage, kaReset, idleReset]
+      simp [sendMessage, sendReady, kaReset, idleReset]
   · -- more to come
     refine ⟨?_, by simp [hi.norej]⟩
     intro x hx
     have hx' : x ∈ Pending e ∨ x = (it.tid, false) := by
-      rw [pending_emit_seg e _ (it.tid, false) (by simp [sendMessage, kaReset, idleReset])
-        (by simp [sendMessage, kaReset, idleReset, hasEnd_noend', hasEnd_noend'']) hn] at hx
+      rw [pending_emit_seg e _ (it.tid, false) (by simp [sendMessage, sendReady, kaReset, idleReset])
+        (by simp [sendMessage, sendReady, kaReset, idleReset, hasEnd_noend', hasEnd_noend'']) hn] at hx
       simpa using hx
     rcases hx' with hx' | hx'
     · obtain ⟨g1, g2⟩ := hi.ts x hx'
-      refine ⟨fun h => by simpa [sendMessage, kaReset, idleReset] using g1 h, fun h => ?_⟩
+      refine ⟨fun h => by simpa [sendMessage, sendReady, kaReset, idleReset] using g1 h, fun h => ?_⟩
       rcases g2 h with g | g
-      · exact Or.inl (by simpa [sendMessage, kaReset, idleReset] using g)
+      · exact Or.inl (by simpa [sendMessage, sendReady, kaReset, idleReset] using g)
       · exact Or.inr (by rw [ht] at g; simpa [tmpTids] using g)
     · subst hx'
       exact ⟨fun h => (by cases h), fun _ => Or.inr (by simp [tmpTids])⟩
@@ -469,7 +469,10 @@ theorem ci_step_local (e : Ep) (ev : Ev) (hne : ∀ c, ev ≠ .rx c) (hp : e.cfg
     simp only []
     split
     · exact hi
-    · exact ci_pump e n hi
+    · split
+      · exact hi
+      · refine CI.of_cv (e := (pump { e with txIdle := false } n).1) rfl ?_
+        exact ci_pump _ n (CI.of_cv (e := e) rfl hi)
   | rxEof =>
     simp only []
     split
